@@ -33,7 +33,7 @@ var cfg = &execcheck.Config{
 		switch {
 		case e.DivZero > 0 || e.DivOverflow > 0:
 			return "glsl-undefined:int-division"
-		case e.F2IRange > 0 || e.F2INaN > 0 || e.F2UNegFrac > 0:
+		case e.F2IRange > 0 || e.F2INaN > 0 || e.F2UNeg > 0:
 			return "glsl-undefined:float-to-int"
 		}
 		return ""
